@@ -472,7 +472,7 @@ def run(ctx):
         run_case(case, ctx)
         if i % 150 == 0:
             rec.sample({"planted": case["planted"], "strict": case["strict"]})
-    for j in range(ctx.pick(1500, 50000)):
+    for j in range(ctx.pick(1500, 400000)):
         if not ctx.mine(j):
             continue
         rng = ctx.rng("pair", j)
